@@ -146,6 +146,26 @@ def boundary_cases(rng):
         b = terms.build(term, rng)
         for v in (-1, 0, 1, 2, 3):
             out.append(convcases.Case(term, b, v, 'boundary'))
+    # the negation of EVERY stock condition is the negation of its predicate -- not "the opposite condition": on NaN neither
+    # `> 0` nor `<= 0` holds, so `~Positive` accepts NaN and `NonPositive` does not; likewise ranges, double negation, and
+    # negations under any / all; float inner type with -0.0, the infinities and NaN
+    negs = [('not', ('adj', a)) for a in ('positive', 'negative', 'nonpositive', 'nonnegative', 'finite')]
+    negs += [('not', ('valrange', 0, None)), ('not', ('valrange', None, 0)), ('not', ('valrange', -1, 1)), ('not', ('not', ('adj', 'positive'))),
+             ('any', [('not', ('adj', 'positive')), ('not', ('adj', 'negative'))]), ('all', [('not', ('adj', 'positive')), ('not', ('adj', 'negative'))]),
+             ('not', ('any', [('adj', 'positive'), ('adj', 'negative')])), ('not', ('all', [('adj', 'nonnegative'), ('adj', 'nonpositive')]))]
+    for cd in negs:
+        for it in num_inner:
+            term = ('cond', it, cd)
+            b = terms.build(term, rng)
+            for v in (-1, 0, 1, 2, -0.0, 0.0, 0.5, -0.5, float('inf'), float('-inf'), float('nan'), True):
+                out.append(convcases.Case(term, b, v, 'boundary'))
+    lnegs = [('not', ('adj', 'empty')), ('not', ('adj', 'nonempty')), ('not', ('lenrange', 1, 2)), ('not', ('lenrange', 0, 0))]
+    for cd in lnegs:
+        for it in len_inner[:2]:
+            term = ('cond', it, cd)
+            b = terms.build(term, rng)
+            for n in range(0, 4):
+                out.append(convcases.Case(term, b, list(range(n)) if it[0] == 'seq' else 'abcd'[:n], 'boundary'))
     return out
 
 
